@@ -73,10 +73,15 @@ def getVar : List Scope → String → Option Value
 
 def getVariable (c : Ctx) (n : String) : Option Value := getVar c.scopes n
 
+/-- `HashMap::insert` on one scope: replace the binding of the name or add one -/
+def scopeInsert : Scope → String → Value → Scope
+  | [], n, v => [(n, v)]
+  | (k, v') :: rest, n, v => if k == n then (n, v) :: rest else (k, v') :: scopeInsert rest n v
+
 /-- `Context::add_variable_from_value` on the innermost scope -/
 def bind (c : Ctx) (n : String) (v : Value) : Ctx :=
   match c.scopes with
-  | s :: rest => { c with scopes := ((n, v) :: s) :: rest }
+  | s :: rest => { c with scopes := scopeInsert s n v :: rest }
   | [] => { c with scopes := [[(n, v)]] }
 
 /-- `Context::new_inner_scope` with the given bindings -/
@@ -491,9 +496,9 @@ def loopG (iv av : String) (evCond evStep : Scope → EvalM Value) :
     let c ← evCond sc
     if !c.truthy then pure sc
     else do
-      let sc1 := (iv, item) :: sc
+      let sc1 := Ctx.scopeInsert sc iv item
       let acc ← evStep sc1
-      loopG iv av evCond evStep rest ((av, acc) :: sc1)
+      loopG iv av evCond evStep rest (Ctx.scopeInsert sc1 av acc)
 
 mutual
 /-- `Value::resolve` -/
